@@ -56,7 +56,6 @@ COMMON = "zvariant::de::DeserializerCommon"
 SERDE_DE = "serde_core::de::Deserializer"
 ARR = "zvariant::dbus::de::ArrayDeserializer"
 SIG = "zvariant_utils::signature::Signature"
-OBJ = "zvariant::object_path::ObjectPath"
 
 
 # ------------------------------------------------------------------------------------- helpers
@@ -206,6 +205,27 @@ def is_loaded_byte(body, var):
     return ("idx",) in at, at
 
 
+def feeds(body, local):
+    """locals whose value can flow into `local`: backward closure over whole-local assignments and call
+    results. Writes through a projection (`(*self).pos = ..`) are ignored, so a pointer is not tainted
+    by what is stored behind it."""
+    deps = {}
+    for b, i, pl, rv, ln in mir.assignments(body):
+        if not pl[1]:
+            deps.setdefault(pl[0], set()).update(l for op in mir.rvalue_operands(rv) for l in mir.operand_locals(op))
+    for c in mir.calls(body):
+        if not c.dest[1]:
+            deps.setdefault(c.dest[0], set()).update(l for a in c.args for l in mir.operand_locals(a))
+    seen, work = set(), [local]
+    while work:
+        x = work.pop()
+        if x in seen:
+            continue
+        seen.add(x)
+        work.extend(deps.get(x, ()))
+    return seen
+
+
 def in_cycle(body, b):
     return b in mir.reachable(body, mir.succs(body)[b])
 
@@ -219,7 +239,6 @@ def check_padding(ctx, f, cfg):
     pp = ctx.one(f.find(name="parse_padding", adt=COMMON, trait=""), "DeserializerCommon::parse_padding")
     pads = [c for c in mir.calls(pp) if c.is_("padding_for_n_bytes")]
     ctx.need(pads, "padding_for_n_bytes call in parse_padding")
-    from_padding = mir.derives(pp, {c.dest[0] for c in pads})
     pos_writes = {b for b, i, pl, rv, ln in mir.assignments(pp) if "pos" in mir.place_fields(pl)}
     ok_blocks = {b for b, i, pl, rv, ln in mir.assignments(pp)
                  if pl[0] == mir.RET and rv[0] == "agg" and rv[3] == "Ok"}
@@ -235,12 +254,8 @@ def check_padding(ctx, f, cfg):
         ctx.ob("PAD-ZERO", "parse_padding:nonzero-edge-rejects", ok and named,
                "[%s] non-zero padding byte: %s%s" % (cfg, why, "" if named else "; Error::PaddingNot0 is not built there"),
                where(pp, ln))
-        idx_locals = set()
-        for a in at:
-            if a[0] == "local":
-                idx_locals.add(a[1])
         byte_local = mir.root_local(pp, var)
-        over_padding = byte_local in from_padding or any(l in from_padding for l in idx_locals)
+        over_padding = bool(feeds(pp, byte_local) & {c.dest[0] for c in pads})
         ctx.ob("PAD-ZERO", "parse_padding:every-padding-byte", over_padding and in_cycle(pp, sb),
                "[%s] the tested byte's index derives from the padding count (%s) and the test is inside a loop (%s)" % (
                    cfg, over_padding, in_cycle(pp, sb)), where(pp, ln))
@@ -339,6 +354,16 @@ def check_str(ctx, f, cfg):
     visits = [c for c in mir.calls(fn) if is_visit(c)]
     ctx.floor("STR-UTF8", "visitor calls in deserialize_str", len(visits), 1)
     payloads = {}
+    slices = [c for c in mir.calls(fn) if c.is_("next_slice") and not c.dest[1]]
+    for v in visits:
+        if len(v.args) < 2 or mir.op_local(v.args[1]) is None:
+            continue
+        src = feeds(fn, mir.op_local(v.args[1]))
+        cand = [c for c in slices if c.dest[0] in src and mir.block_dominates(fn, c.b, v.b)]
+        # the payload is the innermost one: the slice taken last before the visitor runs
+        last = [c for c in cand if all(mir.block_dominates(fn, o.b, c.b) for o in cand)]
+        for c in last:
+            payloads[c.b] = c
     for v in visits:
         if len(v.args) < 2:
             ctx.ob("STR-UTF8", key + "checked-utf8", False, "[%s] visitor call without a string argument" % cfg, v.where)
@@ -351,8 +376,7 @@ def check_str(ctx, f, cfg):
             ok = p[0] == "call" and p[1].is_("next_slice")
             detail += " of %s" % (p[1].callee if p[0] == "call" else p[0])
             if ok:
-                payloads[p[1].b] = p[1]
-                ok = mir.block_dominates(fn, p[1].b, v.b)
+                ok = p[1].b in payloads and mir.block_dominates(fn, p[1].b, v.b)
         ctx.ob("STR-UTF8", key + "checked-utf8", ok, "[%s] %s" % (cfg, detail), v.where)
     for b in f.all_bodies("zvariant"):
         if "zvariant::dbus::de::" in b.root or b.root == fn.id:
@@ -360,7 +384,7 @@ def check_str(ctx, f, cfg):
                 if c.is_("from_utf8_unchecked", "from_utf8_lossy", "from_boxed_utf8_unchecked"):
                     ctx.ob("STR-UTF8", "no-unchecked-utf8:" + b.root, False,
                            "[%s] %s used in the D-Bus deserializer" % (cfg, c.callee), c.where)
-    ctx.need(list(payloads.values()), "payload next_slice in deserialize_str", rule="STR-UTF8")
+    ctx.need(list(payloads.values()), "payload next_slice in deserialize_str", rule="STR-NUL")
     visit_blocks = {v.b for v in visits}
 
     # STR-NUL
@@ -616,13 +640,6 @@ def check_variant_sig(ctx, f, cfg):
 
 
 # ------------------------------------------------------------------------------------- V-CTOR
-OBJ_VALID = ("<zvariant::object_path::ObjectPath<'a> as core::convert::TryFrom<&'a str>>::try_from",
-             "<zvariant::object_path::ObjectPath<'a> as core::convert::TryFrom<&'a [u8]>>::try_from",
-             "<zvariant::object_path::ObjectPath<'_> as core::convert::TryFrom<alloc::string::String>>::try_from",
-             "<zvariant::object_path::ObjectPath<'a> as core::convert::TryFrom<alloc::borrow::Cow<'a, str>>>::try_from",
-             "zvariant::object_path::ObjectPath::<'a>::from_static_str")
-
-
 def is_obj_valid(c):
     return c.callee.startswith("<zvariant::object_path::ObjectPath<") and " as core::convert::TryFrom<" in c.callee and c.is_("try_from") \
         or (c.callee.startswith("zvariant::object_path::ObjectPath::") and c.is_("from_static_str"))
